@@ -223,13 +223,19 @@ func runOctree(enc *json.Encoder, c Case) error {
 				}
 			}
 			e.St = guard(func() {
+				// the caller keeps its own nearest-so-far (as rendering.Mesh.Hit
+				// does): the tree's min/max are per cell, narrowing them only
+				// prunes the rest of the current cell and its children
 				best := -1
 				bestT := 0.
+				limit := t1
 				b.tree.TraverseIntersectingRay(ray, t0, t1, func(i int, min, max *float64) {
 					e.Vis = append(e.Vis, i+1)
-					if t, ok := elemHit(i, *min, *max); ok {
-						best, bestT = i, t
-						*max = t
+					if t, ok := elemHit(i, t0, limit); ok {
+						best, bestT, limit = i, t, t
+						if t < *max {
+							*max = t
+						}
 					}
 				})
 				e.Ri = best + 1
